@@ -180,6 +180,23 @@ CHECKS["C12"] = {
     "level_note": "SHA-1 collisions are outside any oracle",
 }
 
+CHECKS["C18"] = {
+    "level": "exploration",
+    "engine": "E3 swarm + E5 sockets",
+    "rule": ("enumeration: 12 per-torrent settings (trackers on/off x web seeds on/off x DHT none/passive/normal) x proxy yes/no as initial configuration (set per torrent, or through the global defaults), x all SetConf sequences of length 0, 1 and 2 over the 12 settings (thorough: repeated with other waits and a third PRNG-chosen change), with virtual waits of 0 s / 25 s (one slow tick) / 30 min (DHT re-announce) between changes; a tracker fake and a web seed are present in every torrent, pieces are wanted and no peer has them. "
+             "Every contact is judged, at the moment it starts, against the settings in force (old and new settings both count between the call of SetConf and the quiescent cut after its return): tracker fake Announce (and its port / proxy arguments), requests at the local web-seed server (for proxied torrents: at the local HTTP proxy), the DHT announce hook (mode, port), the extended handshake and Port message a scripted peer receives, an incoming handshake through tor.Server on a connection with a global-unicast address. "
+             "Distinct = the enumeration cell; non-trivial = at least one contact was observed under an enabling setting in the same scenario (or nothing was ever enabled)."),
+    "assumptions": E3_ASSUME + ["the local web-seed server answers 404: only the fact of the request is observed; for proxied torrents the same server is configured as HTTP proxy, so a web-seed fetch shows up there as a proxy request",
+                                "the uninitialised C DHT library returns an error after the hook has reported the announce; what the library would send is not observed"],
+    "min": {"distinct_nontrivial": {"quick": 3000, "thorough": 3000}, "counters": {"tracker_contacts_allowed": 1000, "webseed_contacts_allowed": 1000, "dht_announces_allowed": 2000, "dht_announces_with_port": 300, "peer_handshakes_proxied_checked": 1500, "incoming_refused_proxied": 1500, "incoming_accepted_unproxied": 1500, "tracker_contacts_proxied": 300}},
+    "exhaustive_note": "the initial-configuration x proxy x SetConf-sequence (length <= 2) table is enumerated completely; waits are PRNG-chosen per cell",
+    "parts": [{"name": "privacy", "pkg": "c18_privacy", "netns": "loopback", "race": False, "shards": 16},
+              {"name": "privacy-race", "pkg": "c18_privacy", "netns": "loopback", "race": True, "shards": 16, "tiers": ["thorough"]}],
+    "technique": "runtime monitor: absence-of-contact checker on all outbound channels (injected tracker fakes, local web-seed/proxy server, DHT announce hook, scripted peer, incoming handshake) judged against the settings in force at the start of each contact, over an exhaustive configuration x SetConf-sequence table in virtual time",
+    "level_text": "Every combination of per-torrent privacy settings, with and without proxy, and every sequence of up to two run-time changes is executed against the real torrent loop in virtual time (slow ticks, 28-minute DHT re-announces) with trackers and web seeds present and pieces wanted; each outbound contact is judged at its start against the settings in force. Held on the scenarios observed.",
+    "level_note": "needs the verif build tag hook in Torrent.announce; the web-seed fetch uses a real loopback socket (child runs in its own network namespace with lo up)",
+}
+
 # ---- entries written by the check builders (kept in their own files) ----
 import os as _os
 _here = _os.path.dirname(_os.path.abspath(__file__))
